@@ -7,11 +7,14 @@ META = {
                  "bit masks, associativity and code-shape switches are regenerated from the C++; differential run of the model against the "
                  "real tokenizer/parser/printers under ASan/UBSan; model-independent re-parse oracle and a g++ evaluation oracle",
     "category": "proof",
-    "level_text": "Proof, for every expression tree the parser can build from a well-formed token sequence, that parsing the printed tokens "
-                  "gives the same tree (C15_roundtrip), that the precedence/associativity table is the C++ standard's (C15_table_is_cxx) and that "
-                  "escape/unescape are inverse (C15_escape_roundtrip); tied to the code by the regenerated operator table and by a seeded "
-                  "differential run of the real parser and printers against the model; statements, declarations and compiled values are covered "
-                  "by the harness oracles (re-parse identity, g++ evaluation of original vs printed) only.",
+    "level_text": "Proof, for EVERY token sequence with the shape of a C expression (any length and nesting), that the parser accepts it, "
+                  "that the tokens printed from the parsed tree are the tokens parsed and parse back to the identical tree "
+                  "(C15_accepts_and_roundtrips, C15_print_parse_tokens, C15_roundtrip), that the tree is precedence-correct (C15_parse_image) "
+                  "over a precedence/associativity table equal to the C/C++ one (C15_table_is_cxx), and that escape/unescape are inverse "
+                  "(C15_escape_roundtrip); tied to the code by the regenerated operator table and code-shape switches and by a seeded "
+                  "differential run of the real tokenizer, parser and printers against the model; statements, declarations and compiled "
+                  "values are covered by the harness oracles (re-parse identity of whole programs, g++ evaluation of original vs printed "
+                  "expressions and functions) only.",
     "level_note": "Trusted: Lean kernel; translate/gen_ops.py (regex extraction of operator.cpp tables and of the shape of six functions); the "
                   "hand-written transcription of expressionParser.cpp and of the print methods in OccaModel/Expr.lean (validated by the "
                   "correspondence run, not proved equal to the C++); the model tokenizer is a simplification of tokenizer.cpp that is only "
@@ -585,6 +588,197 @@ int main() {
     shutil.rmtree(d, ignore_errors=True)
 
 
+# ------------------------------------------------------------------ semantic oracle for statements (g++)
+class ProgSemGen:
+    """a terminating C function over unsigned long locals: declarations, assignments, if/else chains (with and without
+    braces, dangling else), for / while / do-while with constant trip counts, switch with fall-through, break/continue,
+    nested blocks, early return"""
+
+    def __init__(self, r):
+        self.r = r
+        self.n = 0
+        self.vars = ["a", "b", "c"]
+
+    def fresh(self, p="v"):
+        self.n += 1
+        return "%s%d" % (p, self.n)
+
+    def ex(self, d=2):
+        r = self.r
+        if d <= 0 or r.random() < 0.35:
+            return r.choice(self.vars + ["1", "2", "3", "7", "0x10", "'a'"])
+        k = r.random()
+        if k < 0.5:
+            op = r.choice(["+", "-", "*", "&", "|", "^", "<", ">", "<=", "==", "!=", "&&", "||", "<<", ">>", "/", "%"])
+            rhs = self.ex(d - 1)
+            if op in ("/", "%"):
+                rhs = "(" + rhs + " | 1)"
+            if op in ("<<", ">>"):
+                rhs = "(" + rhs + " & 7)"
+            return self.ex(d - 1) + " " + op + " " + rhs
+        if k < 0.62:
+            return r.choice(["-", "!", "~", "+"]) + self.ex(d - 1) if r.random() < 0.5 else r.choice(["-", "+"]) + " " + r.choice(["-", "+"]) + self.ex(d - 1)
+        if k < 0.75:
+            return "(" + self.ex(d - 1) + ")"
+        if k < 0.85:
+            return self.ex(d - 1) + " ? " + self.ex(d - 1) + " : " + self.ex(d - 1)
+        if k < 0.92:
+            return "(" + r.choice(["int", "short", "char", "bool"]) + ") " + r.choice(["", "-", "~"]) + r.choice(self.vars)
+        return "g2(" + self.ex(d - 1) + ", " + self.ex(d - 1) + ")"
+
+    def assign(self):
+        r = self.r
+        v = r.choice(self.vars)
+        k = r.random()
+        if k < 0.5:
+            return v + " " + r.choice(["=", "+=", "-=", "*=", "^=", "|=", "&="]) + " " + self.ex(2) + ";"
+        if k < 0.7:
+            return r.choice([v + "++;", "++" + v + ";", v + "--;", "--" + v + ";"])
+        w = r.choice(self.vars)
+        return v + " = " + w + " = " + self.ex(1) + ";"
+
+    def stmt(self, d, in_loop=False, in_switch=False):
+        r = self.r
+        k = r.random()
+        if d <= 0 or k < 0.3:
+            return self.assign()
+        if k < 0.4:
+            v = self.fresh()
+            s = "ul " + v + " = " + self.ex(2)
+            if r.random() < 0.3:
+                w = self.fresh()
+                s += ", " + w + " = " + self.ex(1)
+                self.vars.append(w)
+            self.vars.append(v)
+            return s + ";"
+        if k < 0.6:
+            s = "if (" + self.ex(2) + ") " + self.body(d - 1, in_loop, in_switch)
+            for _ in range(r.choice([0, 0, 1, 2])):
+                s += " else if (" + self.ex(1) + ") " + self.body(d - 1, in_loop, in_switch)
+            if r.random() < 0.6:
+                s += " else " + self.body(d - 1, in_loop, in_switch)
+            return s
+        if k < 0.72:
+            i = self.fresh("i")
+            n = r.choice([0, 1, 2, 3, 5])
+            upd = r.choice(["++" + i, i + "++", i + " += 1"])
+            return "for (int %s = 0; %s < %d; %s) " % (i, i, n, upd) + self.body(d - 1, True, False, [i])
+        if k < 0.8:
+            i = self.fresh("w")
+            return "{ int %s = %d; while (%s-- > 0) " % (i, r.choice([0, 1, 3, 4]), i) + self.body(d - 1, True, False, [i]) + " }"
+        if k < 0.87:
+            i = self.fresh("q")
+            return "{ int %s = 0; do " % i + self.body(d - 1, True, False, [i], braces=True) + " while (++%s < %d); }" % (i, r.choice([1, 2, 3]))
+        if k < 0.93:
+            cases = ""
+            for c in r.sample([0, 1, 2, 3, 4], r.randint(1, 3)):
+                cases += "case %d: " % c + self.assign() + " " + r.choice(["break;", "", "break;"]) + " "
+            if r.random() < 0.6:
+                cases += "default: " + self.assign() + " "
+            return "switch (" + self.ex(1) + " & 3) { " + cases + "}"
+        if k < 0.96 and in_loop and not in_switch:
+            return "if (" + self.ex(1) + ") " + r.choice(["break;", "continue;"])
+        if k < 0.98:
+            return "if (" + self.ex(1) + ") return " + self.ex(1) + ";"
+        saved = list(self.vars)
+        s = "{ " + " ".join(self.stmt(d - 1, in_loop, in_switch) for _ in range(r.randint(0, 2))) + " }"
+        self.vars = saved
+        return s
+
+    def body(self, d, in_loop, in_switch, protect=(), braces=False):
+        saved = list(self.vars)
+        self.vars = [v for v in self.vars if v not in protect]
+        if braces or self.r.random() < 0.6:
+            s = "{ " + " ".join(self.stmt(d, in_loop, in_switch) for _ in range(self.r.randint(0, 3))) + " }"
+        else:
+            s = self.stmt(0, in_loop, in_switch)
+        self.vars = saved
+        return s
+
+    def function(self):
+        self.vars = ["a", "b", "c"]
+        body = " ".join(self.stmt(3) for _ in range(self.r.randint(2, 5)))
+        return "ul fn(ul a, ul b, ul c) { " + body + " return a ^ (b * 3) ^ (c * 5); }"
+
+
+def program_semantic_oracle(ck, hb, n_prog):
+    """original vs printed FUNCTIONS compiled with g++ and run on the same inputs"""
+    r = ck.rng
+    progs = [ProgSemGen(r).function() for _ in range(n_prog)]
+    impl, _, _ = ck.run_impl(hb, [["S " + pct("typedef unsigned long ul; " + p)] for p in progs], timeout=600, env=ENV)
+    pairs = []
+    for p, obs in zip(progs, impl):
+        m = re.match(r"ok T=.* P=(\S+) R=", obs[-1] if obs else "")
+        if m:
+            pairs.append((p, unpct(m.group(1))))
+    ck.cov["counters"]["semantic_functions"] = len(pairs)
+    ck.cov["counters"]["semantic_functions_rejected_by_parser"] = len(progs) - len(pairs)
+    if not pairs:
+        return
+    d = os.path.join(BUILD, "tmp", "c15prog_%d_%d" % (ck.seed, os.getpid()))
+    os.makedirs(d, exist_ok=True)
+    bad = set()
+    src = os.path.join(d, "prog.cpp")
+    HEAD = "#include <cstdio>\ntypedef unsigned long ul;\nstatic ul g2(ul x, ul y) { return x * 31 + (y ^ 5); }\n"
+
+    def source(active):
+        L = [HEAD]
+        for i, (o, p) in enumerate(pairs):
+            if i in active:
+                L.append("namespace O%d { %s }" % (i, o))
+                # the printed program repeats the typedef
+                L.append("namespace P%d { %s }" % (i, re.sub(r"typedef[^;]*;", "", " ".join(p.split("\n")), count=1)))
+            else:
+                L.append("")
+                L.append("")
+        L.append("int main() { ul seed = %dUL; int bad = 0;" % (ck.seed * 31337 + 7))
+        for i in sorted(active):
+            L.append("  for (int it = 0; it < 10; ++it) { ul v[3]; for (int j = 0; j < 3; ++j) { seed = seed * 6364136223846793005UL + 1442695040888963407UL; "
+                     "v[j] = it < 4 ? (seed >> 61) : seed; } if (O%d::fn(v[0], v[1], v[2]) != P%d::fn(v[0], v[1], v[2])) { std::printf(\"DIFF %d\\n\"); break; } }" % (i, i, i))
+        L.append("  std::printf(\"DONE\\n\"); return 0; }")
+        return "\n".join(L) + "\n"
+
+    active = set(range(len(pairs)))
+    nhead = HEAD.count("\n") + 1
+    bad_orig, bad_print = set(), set()
+    for _ in range(4):
+        open(src, "w").write(source(active))
+        rc, so, se = sh(["g++", "-std=c++17", "-fsyntax-only", "-w", "-fmax-errors=0", src], timeout=600)
+        if rc == 0:
+            break
+        hit = False
+        for m in re.finditer(r"prog\.cpp:(\d+):\d+: error", se):
+            idx, which = divmod(int(m.group(1)) - nhead - 1, 2)
+            if 0 <= idx < len(pairs) and idx in active:
+                hit = True
+                (bad_print if which else bad_orig).add(idx)
+        if not hit:
+            ck.problems.append(("tie", "statement oracle: g++ failed for another reason: " + se[-400:]))
+            return
+        active -= bad_orig | bad_print
+    for i in sorted(bad_print - bad_orig)[:3]:
+        ck.oracle_violation("printed function is not valid C++ although the original is: original `%s` printed `%s`" % pairs[i],
+                            "S " + pct(pairs[i][0]), name="psem")
+    ck.cov["counters"]["semantic_functions_generator_invalid"] = len(bad_orig)
+    exe = os.path.join(d, "prog")
+    rc, so, se = sh(["g++", "-std=c++17", "-O0", "-w", src, "-o", exe], timeout=900)
+    if rc != 0:
+        ck.problems.append(("tie", "statement oracle: g++ link failed: " + se[-300:]))
+        return
+    rc, so, se = sh([exe], timeout=120)
+    if "DONE" not in so:
+        ck.problems.append(("tie", "statement oracle: evaluation program did not finish rc=%s" % rc))
+        return
+    diffs = [int(x) for x in re.findall(r"DIFF (\d+)", so)]
+    for i in diffs[:3]:
+        ck.oracle_violation("printed function computes different values from the original (g++): original `%s` printed `%s`" % pairs[i],
+                            "S " + pct(pairs[i][0]), name="psem")
+    ck.cov["counters"]["semantic_functions_compiled"] = len(active)
+    ck.cov["counters"]["semantic_function_differences"] = len(diffs)
+    ck.cov["evaluations"] += len(active)
+    shutil.rmtree(d, ignore_errors=True)
+
+
 # ------------------------------------------------------------------ corpus
 CORPUS = [
     ["E - - o", "E + + o", "E - -- x", "E + ++ x", "E & & x"],                  # F22 family
@@ -643,6 +837,8 @@ def shape_probe(ck, db, hs):
                 shaped += 1
                 if "printeq=1" not in r:
                     ck.problems.append(("proof", "C15_print_parse_tokens is contradicted by the model on: " + op[0]))
+                if "canon=1" not in r:
+                    ck.problems.append(("proof", "C15_parse_image is contradicted by the model on: " + op[0]))
             else:
                 ck.problems.append(("tie", "an accepted C expression is outside CShape (hypothesis of C15_print_parse_tokens): " + op[0]))
     ck.cov["counters"]["accepted_expressions_probed"] = acc
@@ -681,6 +877,7 @@ def main(argv):
         progs = S_CORPUS + KNOWN_PROGRAMS + [gen_program(ck.rng) for _ in range(200 if quick else 3000)]
         run_programs(ck, hb, progs)
         semantic_oracle(ck, hb, 300 if quick else 3000)
+        program_semantic_oracle(ck, hb, 60 if quick else 1500)
     ck.finish(META["level_text"])
 
 
